@@ -28,6 +28,7 @@
 
 #include <algorithm>
 #include <iostream>
+#include <tuple>
 
 namespace QtLogger {
 
@@ -249,10 +250,10 @@ public:
 
         QString pattern;
         if (suffix.isEmpty()) {
-            pattern = QStringLiteral("^%1\\.\\d{4}-\\d{2}-\\d{2}\\.\\d+(\\.gz)?$")
+            pattern = QStringLiteral("^%1\\.(\\d{4}-\\d{2}-\\d{2})\\.(\\d+)(\\.gz)?$")
                           .arg(QRegularExpression::escape(baseName));
         } else {
-            pattern = QStringLiteral("^%1\\.\\d{4}-\\d{2}-\\d{2}\\.\\d+\\.%2(\\.gz)?$")
+            pattern = QStringLiteral("^%1\\.(\\d{4}-\\d{2}-\\d{2})\\.(\\d+)\\.%2(\\.gz)?$")
                           .arg(QRegularExpression::escape(baseName),
                                QRegularExpression::escape(suffix));
         }
@@ -268,9 +269,14 @@ public:
             }
         }
 
-        std::sort(result.begin(), result.end(), [](const QString &a, const QString &b) {
-            return QFileInfo(a).lastModified() < QFileInfo(b).lastModified();
-        });
+        // Oldest first, by the rotation date and index encoded in the name: modification times
+        // tie when several rotations happen within one file system timestamp tick
+        const auto key = [&re](const QString &path) {
+            const auto match = re.match(QFileInfo(path).fileName());
+            return std::make_tuple(match.captured(1), match.captured(2).toInt(), path);
+        };
+        std::sort(result.begin(), result.end(),
+                  [&key](const QString &a, const QString &b) { return key(a) < key(b); });
 
         return result;
     }
